@@ -31,7 +31,7 @@ var c12Modes = []string{"compiled x shared document", "compiled x per-goroutine 
 	"compiled x shared Go-struct document", "one-shot Search x shared Go-struct document"}
 
 func c12Exprs(seed uint64) []*gen.Expr {
-	base := docs.J(c06DocText).(map[string]interface{})
+	base := c06BaseDoc()
 	var trees []*gen.Expr
 	for _, lit := range []bool{false, true} {
 		for _, c := range c06Calls(lit, base) {
@@ -76,7 +76,7 @@ func c12(r *mon.Run) {
 		r.Inconclusive("no race log: started without the driver (VH_RACELOG); only result comparison is active")
 	}
 	trees := c12Exprs(r.Seed)
-	baseDoc := docs.J(c06DocText)
+	var baseDoc interface{} = c06BaseDoc()
 	rounds := tierPick(r, 7000, 100000)
 	prevProcs := runtime.GOMAXPROCS(0)
 	defer runtime.GOMAXPROCS(prevProcs)
